@@ -11,7 +11,16 @@
 (*              the concatenated answer sections *denote* (declarative       *)
 (*              oracle) the sender's history from the client's version on,   *)
 (*              the specification's receiver run on the same messages ends   *)
-(*              in the sender's content, and so did the real receiver.       *)
+(*              in the sender's content, and so did the real receiver; a     *)
+(*              real stream::Connection handed the messages of the transfer *)
+(*              to a multi-response request as Xfr!ClientRun says, that is  *)
+(*              all of them, in order, and then the end (ClientIdeal).      *)
+(*                                                                          *)
+(* Deviations (DESIGN 2.6): an event must be explained by the ideal model   *)
+(* (pass), or by the model with some of the deviations listed as open       *)
+(* switched on (then "TRACE_KNOWN" names the ones that were needed, the     *)
+(* smallest such set); anything else rejects the trace.  So a tree in which *)
+(* an open deviation has been repaired is accepted as well.                 *)
 EXTENDS Xfr, Json, IOUtils
 
 Rec == ndJsonDeserialize(IOEnv.TRACE)
@@ -22,6 +31,19 @@ EnvDev == {d \in DevNames : d \in DOMAIN IOEnv}
 
 VARIABLES l, hist
 tvars == <<l, hist>>
+
+\* Xfr.tla with exactly the deviations W switched on (the unqualified
+\* operators of the EXTENDS above are only used where Dev does not matter)
+XD(W) == INSTANCE Xfr WITH Dev <- W
+
+\* Ex(W): "the event at l is explained with the deviations W".  Ideal first;
+\* otherwise the smallest set of open deviations that explains it is reported.
+Judge(Ex(_)) ==
+  IF Ex({}) THEN TRUE
+  ELSE LET Ws == {W \in (SUBSET EnvDev) \ {{}} : Ex(W)} IN
+       /\ Ws # {}
+       /\ LET W == CHOOSE W \in Ws : \A V \in Ws : Cardinality(W) <= Cardinality(V)
+          IN \A d \in W : PrintT("TRACE_KNOWN " \o ToJson([dev |-> d, at |-> l, ev |-> Rec[l].ev]))
 
 IsEv(e) == l <= Len(Rec) /\ Rec[l].ev = e /\ l' = l + 1
 
@@ -43,10 +65,10 @@ DiffOk(before, after, d) ==
 
 \* what Xfr.tla's diff capture reports for a write session that takes the
 \* zone from view b to view a rewriting every changed RRset once (with the
-\* open deviations: as built)
-SessionDiff(b, a) ==
+\* deviations W: as built)
+SessionDiff(W, b, a) ==
   LET K == Keys(SeqSet(b.recs) \cup SeqSet(a.recs))
-      db == KeyNetDb(RrOf(K, SeqSet(b.recs)), RrOf(K, SeqSet(a.recs)))
+      db == XD(W)!KeyNetDb(RrOf(K, SeqSet(b.recs)), RrOf(K, SeqSet(a.recs)))
   IN [s |-> SerialOf(b.soa), e |-> SerialOf(a.soa),
       add |-> SortS(FlatSorted(db.add) \o a.soa), rem |-> SortS(FlatSorted(db.rem) \o b.soa)]
 
@@ -56,8 +78,9 @@ T_Commit == /\ IsEv("commit")
                    d == Rec[l].diff
                IN /\ a = [soa |-> <<100 + Rec[l].serial>>, recs |-> Rec[l].want]
                   /\ "none" \notin DOMAIN d
-                  /\ [s |-> d.s, e |-> d.e, add |-> d.add, rem |-> d.rem] = SessionDiff(b, a)
-                  /\ ("D_zone_diff_ttl_change_lost" \notin EnvDev) => DiffOk(b, a, d)
+                  /\ Judge(LAMBDA W :
+                        /\ [s |-> d.s, e |-> d.e, add |-> d.add, rem |-> d.rem] = SessionDiff(W, b, a)
+                        /\ ("D_zone_diff_ttl_change_lost" \notin W) => DiffOk(b, a, d))
             /\ UNCHANGED hist
 
 T_Hist == /\ IsEv("hist")
@@ -70,13 +93,17 @@ LatestV == VersionAt(Len(hist))
 \* the client's version: the sender's history - unless a deviation of the
 \* diff capture is open, then what the deviant difference sets carry.
 HistC(i) == SeqSet(hist[i].recs)
-LibStep(C, i) ==
+LibStep(W, C, i) ==
   LET K == Keys(HistC(i) \cup HistC(i + 1))
-      db == KeyNetDb(RrOf(K, HistC(i)), RrOf(K, HistC(i + 1)))
+      db == XD(W)!KeyNetDb(RrOf(K, HistC(i)), RrOf(K, HistC(i + 1)))
   IN OFold(OFold(C, FlatSorted(db.rem), TRUE), FlatSorted(db.add), FALSE)
-RECURSIVE Carried(_, _)
-Carried(from, j) == IF j = 0 THEN HistC(from) ELSE LibStep(Carried(from, j - 1), from + j - 1)
-ExpectV(from, j) == [soa |-> <<100 + hist[from + j].s>>, recs |-> SetToSeq(Carried(from, j))]
+RECURSIVE Carried(_, _, _)
+Carried(W, from, j) == IF j = 0 THEN HistC(from) ELSE LibStep(W, Carried(W, from, j - 1), from + j - 1)
+ExpectV(W, from, j) == [soa |-> <<100 + hist[from + j].s>>, recs |-> SetToSeq(Carried(W, from, j))]
+
+\* the real stream client on the recorded messages: as the transcription of
+\* check_stream says
+ClientAsModel(e, ms) == e.client.outs = ClientRun(e.req, ms)
 
 T_Xfer ==
   /\ IsEv("xfer")
@@ -87,32 +114,37 @@ T_Xfer ==
                                           anc |-> e.msgs[i].anc, nsc |-> e.msgs[i].nsc]]
          c0 == SeqSet(e.rold.recs)
          den == Denotes(ms, e.req, e.rold.soa, c0)
-         run == RunStream(ContentOf(TU, e.rold.soa, c0), e.req, ms)
          known == e.req = 251 /\ e.from < Len(hist) /\ e.from >= 1
-         target == IF known THEN ExpectV(e.from, Len(hist) - e.from) ELSE LatestV
      IN /\ \A i \in 1..Len(ms) : e.msgs[i].parse_ok /\ e.msgs[i].arc = 0
-        /\ ("D_zone_diff_ttl_change_lost" \notin EnvDev) => target = LatestV
         \* sender: every message leaves the octets the request reserved (TSIG,
         \* OPT appended by outer middleware) within the 65535-octet TCP limit;
         \* a transfer larger than that budget is therefore split
         /\ Len(e.sizes) = Len(ms)
         /\ \A i \in 1..Len(ms) : e.sizes[i] + e.reserved <= 65535
-        \* sender: the stream denotes the sender's zone / history
         /\ den.allValid /\ den.rd.complete /\ ~den.rd.bad
-        /\ den.rd.versions[Len(den.rd.versions)] = target
-        /\ known => den.rd.versions = [i \in 1..(Len(hist) - e.from) |-> ExpectV(e.from, i)]
         /\ MV(e.sender) = LatestV
-        \* receiver (model): accepts every message, finishes, ends in the sender's zone
-        /\ ~Rejected(run) /\ Finished(run) /\ run.final = target
-        /\ Range(AllPubs(run)) \subseteq {VersionView(e.rold.soa, c0)} \cup Range(den.rd.versions)
-        \* receiver (real): same final content, same published content after every message
         /\ ~e.rpanic
-        /\ MV(e.rfinal) = run.final
-        /\ Len(e.rsteps) = Len(run.steps)
-        /\ \A i \in 1..Len(run.steps) :
-              /\ MV(e.rsteps[i].pub) = run.steps[i].pub
-              /\ e.rsteps[i].ups = run.steps[i].ups
-              /\ e.rsteps[i].ir = "ok" /\ e.rsteps[i].it = "ok" /\ e.rsteps[i].ap = "ok"
+        \* stream client (real): every message of the transfer, in order, then
+        \* the end - as the transcription says and as the oracle says
+        /\ ClientAsModel(e, ms)
+        /\ e.client.outs = ClientIdeal(ms, e.req, e.rold.soa, c0)
+        /\ Judge(LAMBDA W :
+             LET run == XD(W)!RunStream(ContentOf(TU, e.rold.soa, c0), e.req, ms)
+                 target == IF known THEN ExpectV(W, e.from, Len(hist) - e.from) ELSE LatestV
+             IN /\ ("D_zone_diff_ttl_change_lost" \notin W) => target = LatestV
+                \* sender: the stream denotes the sender's zone / history
+                /\ den.rd.versions[Len(den.rd.versions)] = target
+                /\ known => den.rd.versions = [i \in 1..(Len(hist) - e.from) |-> ExpectV(W, e.from, i)]
+                \* receiver (model): accepts every message, finishes, ends in the sender's zone
+                /\ ~Rejected(run) /\ Finished(run) /\ run.final = target
+                /\ Range(AllPubs(run)) \subseteq {VersionView(e.rold.soa, c0)} \cup Range(den.rd.versions)
+                \* receiver (real): same final content, same published content after every message
+                /\ MV(e.rfinal) = run.final
+                /\ Len(e.rsteps) = Len(run.steps)
+                /\ \A i \in 1..Len(run.steps) :
+                      /\ MV(e.rsteps[i].pub) = run.steps[i].pub
+                      /\ e.rsteps[i].ups = run.steps[i].ups
+                      /\ e.rsteps[i].ir = "ok" /\ e.rsteps[i].it = "ok" /\ e.rsteps[i].ap = "ok")
   /\ UNCHANGED hist
 
 \* the sender's stream with its closing SOA replaced by one of the same serial
@@ -128,20 +160,23 @@ T_XferBad ==
          c0 == SeqSet(e.rold.recs)
          old == VersionView(e.rold.soa, c0)
          den == Denotes(ms, e.req, e.rold.soa, c0)
-         run == RunStream(ContentOf(TU, e.rold.soa, c0), e.req, ms)
          lastm == ms[Len(ms)]
      IN /\ lastm.an[Len(lastm.an)] >= 200              \* the corruption is what was meant
         /\ ~den.rd.complete
         /\ ~e.rpanic
-        /\ ~Finished(run)
         /\ \A i \in 1..Len(e.rsteps) : \A j \in 1..Len(e.rsteps[i].ups) : e.rsteps[i].ups[j][1] # "Fin"
-        /\ Range(AllPubs(run)) \cup {run.final} \subseteq {old} \cup Range(den.rd.versions)
-        /\ MV(e.rfinal) = run.final
-        /\ Len(e.rsteps) = Len(run.steps)
-        /\ \A i \in 1..Len(run.steps) :
-              /\ MV(e.rsteps[i].pub) = run.steps[i].pub
-              /\ e.rsteps[i].ups = run.steps[i].ups
-              /\ e.rsteps[i].ir = run.steps[i].ir /\ e.rsteps[i].it = run.steps[i].it
+        \* stream client (real): it looks at SOA serials only, as transcribed
+        /\ ClientAsModel(e, ms)
+        /\ Judge(LAMBDA W :
+             LET run == XD(W)!RunStream(ContentOf(TU, e.rold.soa, c0), e.req, ms)
+             IN /\ ~Finished(run)
+                /\ Range(AllPubs(run)) \cup {run.final} \subseteq {old} \cup Range(den.rd.versions)
+                /\ MV(e.rfinal) = run.final
+                /\ Len(e.rsteps) = Len(run.steps)
+                /\ \A i \in 1..Len(run.steps) :
+                      /\ MV(e.rsteps[i].pub) = run.steps[i].pub
+                      /\ e.rsteps[i].ups = run.steps[i].ups
+                      /\ e.rsteps[i].ir = run.steps[i].ir /\ e.rsteps[i].it = run.steps[i].it)
   /\ UNCHANGED hist
 
 \* IXFR over UDP: a single response message within (size hint - reserved
@@ -163,7 +198,7 @@ T_XferUdp ==
         /\ CheckResponse(IpNone, ms[1]) /\ IsAnswer(251, ms[1])
         /\ \/ ms[1].an = <<LatestV.soa[1]>>
            \/ /\ den.allValid /\ den.rd.complete /\ ~den.rd.bad
-              /\ den.rd.versions = [i \in 1..(Len(hist) - e.from) |-> ExpectV(e.from, i)]
+              /\ Judge(LAMBDA W : den.rd.versions = [i \in 1..(Len(hist) - e.from) |-> ExpectV(W, e.from, i)])
   /\ UNCHANGED hist
 
 \* IXFR from a client that holds the server's current version or claims a
@@ -178,21 +213,25 @@ T_XferUtd ==
                                           qdc |-> e.msgs[i].qdc, an |-> e.msgs[i].an,
                                           anc |-> e.msgs[i].anc, nsc |-> e.msgs[i].nsc]]
          c0 == SeqSet(e.rold.recs)
-         run == RunStream(ContentOf(TU, e.rold.soa, c0), 251, ms)
          old == VersionView(e.rold.soa, c0)
      IN /\ e.req = 251 /\ e.from >= Len(hist)
         /\ Len(ms) = 1 /\ e.msgs[1].parse_ok /\ e.msgs[1].arc = 0
         /\ CheckResponse(IpNone, ms[1]) /\ IsAnswer(251, ms[1])
         /\ ms[1].an = <<LatestV.soa[1]>>
         /\ e.from = Len(hist) => old = LatestV
-        /\ ~Finished(run) /\ AllPubs(run) = <<>> /\ run.final = old
         /\ ~e.rpanic
-        /\ MV(e.rfinal) = run.final
-        /\ Len(e.rsteps) = Len(run.steps)
-        /\ \A i \in 1..Len(run.steps) :
-              /\ MV(e.rsteps[i].pub) = run.steps[i].pub
-              /\ e.rsteps[i].ups = run.steps[i].ups
-              /\ e.rsteps[i].ir = run.steps[i].ir /\ e.rsteps[i].it = run.steps[i].it
+        \* stream client (real): the lone SOA is the whole answer
+        /\ ClientAsModel(e, ms)
+        /\ e.client.outs = ClientIdeal(ms, 251, e.rold.soa, c0)
+        /\ Judge(LAMBDA W :
+             LET run == XD(W)!RunStream(ContentOf(TU, e.rold.soa, c0), 251, ms)
+             IN /\ ~Finished(run) /\ AllPubs(run) = <<>> /\ run.final = old
+                /\ MV(e.rfinal) = run.final
+                /\ Len(e.rsteps) = Len(run.steps)
+                /\ \A i \in 1..Len(run.steps) :
+                      /\ MV(e.rsteps[i].pub) = run.steps[i].pub
+                      /\ e.rsteps[i].ups = run.steps[i].ups
+                      /\ e.rsteps[i].ir = run.steps[i].ir /\ e.rsteps[i].it = run.steps[i].it)
   /\ UNCHANGED hist
 
 TNext == T_New \/ T_Commit \/ T_Hist \/ T_Xfer \/ T_XferBad \/ T_XferUdp \/ T_XferUtd
